@@ -49,6 +49,11 @@ type PeerPlan struct {
 	// > 0 delays each of its responses.
 	HdrBatch int `json:",omitempty"`
 	DelayMs  int `json:",omitempty"`
+	// Late > 0 (lighter-fork): the first Late blocks of the fork are spaced
+	// four target intervals apart, so that the whole fork is stamped later
+	// than the honest blocks of the same heights (still within the
+	// future-time limit).
+	Late int `json:",omitempty"`
 }
 
 // Plan of a convergence scenario.
@@ -183,6 +188,20 @@ func PlanFromSeed(seed int64, k int) Plan {
 		p.Seed = 1000373
 		p.Announce = "inv"
 		p.Extend, p.ReorgDepth = 3, 8
+	}
+	if k == 15 {
+		// A fixed scenario: the client's first peer serves a valid lighter
+		// fork (one block shorter) that leaves the honest chain 20 blocks
+		// below the tip and whose blocks are stamped about an hour LATER
+		// than the honest blocks of the same heights. The honest branch must
+		// be judged by its own timestamps (median time past of its own
+		// ancestors), not by those of the branch it replaces.
+		p.ChainLen = 120
+		p.Checkpoints = nil
+		p.Preset = chaingen.PresetNoRetarget
+		p.Peers = []PeerPlan{{Kind: BLighter, At: 100, Late: 4}, {Kind: BHonest}}
+		p.FirstPeer = 0
+		p.Extend, p.ReorgDepth = 2, 0
 	}
 	if k == 13 {
 		// A fixed scenario: a chain longer than one headers message (2000),
@@ -369,7 +388,13 @@ func Build(p Plan) *Built {
 				w.AddPeer(f)
 				break
 			}
-			br := g.Extend(f, l, chaingen.PaceNormal)
+			var br []*chaingen.Node
+			if pp.Late > 0 && pp.Late < l {
+				slow := g.Extend(f, pp.Late, chaingen.PaceSlow)
+				br = append(slow, g.Extend(slow[len(slow)-1], l-pp.Late, chaingen.PaceNormal)...)
+			} else {
+				br = g.Extend(f, l, chaingen.PaceNormal)
+			}
 			w.AddPeer(br[len(br)-1])
 		case BInvalidHdr:
 			base := tip.Ancestor(pp.At - 1)
